@@ -179,6 +179,7 @@ specfun("est_price", ["m", "o"],
 specfun("bp_of", ["m", "o"], "cfg_pair_info(om_cfg(m), o._pair).base_precision")
 specfun("qp_of", ["m", "o"], "cfg_pair_info(om_cfg(m), o._pair).quote_precision")
 specfun("est_b", ["m", "o"], "q_down(o._amount if is_buy(o) else -o._amount, bp_of(m, o))")
+# (stated for amounts on the base grid -- validated requests are -- where truncation is the identity and the quote estimate is not rescaled)
 specfun("est_q", ["m", "o"], "q_he(o._amount * est_price(m, o) * (-1 if is_buy(o) else 1), qp_of(m, o))")
 specfun("est_fee_q", ["m", "o"],
         "ite(typeis(m._ctx.fee_strategy, 'Percentage') and est_b(m, o) != 0 and est_q(m, o) != 0, "
@@ -187,12 +188,14 @@ specfun("req_of", ["m", "o", "s"],
         "ite(s == ob(o), (-est_b(m, o) if est_b(m, o) < 0 else 0), "
         "ite(s == oq(o), (-(est_q(m, o) + est_fee_q(m, o)) if est_q(m, o) + est_fee_q(m, o) < 0 else 0), 0))")
 contract(OM + "_estimate_required_balances", props=["C06", "C07"], returns="ValueMap", modifies=[],
+         hints=[("amount_on_grid_is_not_truncated", "implies(grid(order._amount, bp_of(self, order)), "
+                                                     "q_down(order._amount, bp_of(self, order)) == order._amount and q_down(-order._amount, bp_of(self, order)) == -order._amount)")],
          requires=[("order", "order_wf(order) and wf_config(om_cfg(self), order._pair)"), ("fees", "fee_wf(self._ctx.fee_strategy)"),
                    ("prices", "prices_wf(self._ctx.prices)"),
                    ("new", "forall(lambda s=Str: not (s in order._balance_updates)) and forall(lambda s=Str: not (s in order._fees))")],
          ensures=[("fresh", "fresh(result)"),
                   ("nonneg", "forall(lambda s=Str: at(result, s) >= 0 and implies(s in result, at(result, s) > 0))"),
-                  ("reservation", "implies(known_order(order) and known_fees(self._ctx.fee_strategy), "
+                  ("reservation", "implies(known_order(order) and known_fees(self._ctx.fee_strategy) and grid(order._amount, bp_of(self, order)), "
                                   "forall(lambda s=Str: at(result, s) == req_of(self, order, s)))")])
 
 # ---------------------------------------------------------------------------------------------------------------------
